@@ -41,7 +41,24 @@ ASSUMPTIONS = [
     'block bases are object start + align*k with k in [0,9]: writes below a block base by less than align*k bytes are not detected',
     'the induction over operation histories (every public operation preserves the representation invariant) is a meta-argument over the discharged contracts',
 ]
+VEC_NOTE = ' Vector-level units (vec.*) fix the capacity and block size of the pre-state to enumerated constants (CBMC 6.11 needs minutes and tens of GB for objects of symbolic size that are read and written byte-wise, seconds for constant-size ones); size(), contents, offsets, counts, allocator ids stay symbolic. They are reported as bounded stand-ins and not counted as proved.'
 PROPERTY_META = {
+    'C01': dict(claimed=True, level='proof',
+                text='Contracts on the real vector operations (constructor, emplace_back, pop_back, erase, clear, reserve, operator[], size/empty/capacity) state the sequence model on the representation: new size, which table entry/stride each element has, that untouched elements keep address and bytes, that shifted elements keep their bytes (witness byte), that the representation invariant WF_VAR/WF_FIXED is preserved; emplace_at is proved (unbounded) to store every argument at its layout position (store/load round trip at a witness byte).',
+                note='Layout/store level is a proof for enumerated parameter lists.' + VEC_NOTE + ' std::transform over the address table is verified with a bounded unwinding (<= 6 entries) and used by contract in erase. Non-trivial value types: see C06.',
+                design_ref='DESIGN.md 6 C01'),
+    'C09': dict(claimed=True, level='proof',
+                text='AllocatorAwarePointer copy/move/swap contracts (unbounded, 16 trait combinations) give independence of storage and exact transfer of ownership; vector-level swap and move construction are verified against contracts that say the complete representation (capacity, block, table/stride, size, fixed sizes) is exchanged resp. transferred and the moved-from vector owns nothing.',
+                note='Copy construction/assignment and move assignment of whole vectors: see evidence for the units present.' + VEC_NOTE, design_ref='DESIGN.md 6 C09'),
+    'C10': dict(claimed=True, level='proof',
+                text='The contract of the real reserve(n, b) says: n <= capacity() changes nothing and requests nothing; otherwise capacity()==n, size(), fixed sizes, allocator, stored bytes (witness byte) and element offsets (witness element) are unchanged, the new block is owned, aligned and at least as large as the budget calculate_element_size gives for n elements and b bytes, which is proved (unbounded) to bound every element extent.',
+                note='calculate_element_size budget lemma: proof per enumerated parameter list.' + VEC_NOTE, design_ref='DESIGN.md 6 C10'),
+    'C16': dict(claimed=True, level='proof',
+                text='Every contract of emplace_back, pop_back, clear, erase, reserve (not exceeding capacity), swap and move construction includes: allocator call counters unchanged, block pointer and capacity unchanged (resp. exchanged), and an assigns clause that excludes everything in front of the modified position; AllocatorAwarePointer swap/move/release/reset are proved (unbounded) not to allocate.',
+                note='AllocatorAwarePointer level is a proof.' + VEC_NOTE, design_ref='DESIGN.md 6 C16'),
+    'C18': dict(claimed=True, level='model_checking',
+                text='The pre-states of all vector-level contracts include never-filled vectors (address table content arbitrary), emptied vectors and capacity 0; size/empty/data_begin/data_end/clear/erase/reserve/swap/constructor contracts are discharged on them with all pointer checks on, so no result depends on an uninitialised table slot.',
+                note='Default-constructed vectors (null table) are not yet covered.' + VEC_NOTE, design_ref='DESIGN.md 6 C18'),
     'C02': dict(claimed=True, level='proof',
                 text='Per parameter list of the catalogue: the real emplace_at is proved to write only inside the oracle layout of the element (assigns frame per field, memcpy bounds), the real calculate_element_size is proved to bound every element extent and every next-element start for all varying counts (the two per-element facts from which the N-element/B-byte budget follows by induction), and all pointer/bounds checks of the functions under contract are discharged.',
                 note='Parameter lists are enumerated (catalogue), counts/sizes/addresses are universal up to 65536 items per span. The sum over N elements is an induction written in DESIGN.md, not a CBMC obligation.',
@@ -90,6 +107,8 @@ def units(tier, seed=0):
                 u = dict(id='vec.%s.F%d.%s' % (L.tag, f, name), tu='vec_%s_F%d' % (L.tag, f), gen=cxx, template_text=txt, vars={}, entry=h,
                          enforce='@F{%s}' % vec.RXV[key], replace=['@F{%s}' % vec.REPL[r] for r in repl], props=props, layer='vector.hpp/elementLocator.hpp',
                          kind=extra.get('kind', 'proof'), config='vector: %s, allocator traits F=%d' % (spec, f))
+                if extra.get('tier') == 'thorough' and tier != 'thorough': continue
+                if extra.get('timeout'): u['timeout'] = extra['timeout']
                 if extra.get('unwind'): u['unwind'] = extra['unwind']
                 u['cdefs'] = ['VF_BLOCK_K=1']
                 if extra.get('cdefs_nvar'): u['cdefs'].append('VF_WINDOWS=%d' % min(4, 2 * L.nvar))
